@@ -166,12 +166,35 @@ where
     p("I.saturating_neg", o(|| s(ia.saturating_neg())));
     p("I.op neg", o(|| s(-ia)));
     p("I.abs (profile dependent)", o(|| s(ia.abs())));
+    // the extreme values of the type against the (structured) operands of the case: a shortcut keyed on a
+    // special operand (MIN, MAX, -1) and a predicate on the other (is_one, is_zero, is_power_of_two ...)
+    // meets every generated pattern without any cost to the generator
+    let (imin, imax, ineg1, umax) = (I::k_min(), I::k_max(), I::load(&vec![0xffu8; c.0 .0.len()]), U::k_max());
+    p("I.MIN checked_div/rem b", o(|| (so(imin.checked_div(ib)), so(imin.checked_rem(ib)))));
+    p("I.MIN overflowing_div_euclid/rem_euclid b", o(|| (sp(imin.overflowing_div_euclid(ib)), sp(imin.overflowing_rem_euclid(ib)))));
+    p("I.MIN wrapping_mul / checked_mul b", o(|| (s(imin.wrapping_mul(ib)), so(imin.checked_mul(ib)))));
+    p("I.b checked_div/rem MIN", o(|| (so(ib.checked_div(imin)), so(ib.checked_rem(imin)))));
+    p("I.MAX checked_div/rem b", o(|| (so(imax.checked_div(ib)), so(imax.checked_rem(ib)))));
+    p("I.-1 checked_div/rem b", o(|| (so(ineg1.checked_div(ib)), so(ineg1.checked_rem(ib)))));
+    p("I.b checked_div/rem -1", o(|| (so(ib.checked_div(ineg1)), so(ib.checked_rem(ineg1)))));
+    p("I.MIN checked_next_multiple_of b", o(|| so(imin.checked_next_multiple_of(ib))));
+    p("U.MAX checked_div/rem b", o(|| (so(umax.checked_div(b)), so(umax.checked_rem(b)))));
+    p("U.MAX overflowing_mul / saturating_mul b", o(|| (sp(umax.overflowing_mul(b)), s(umax.saturating_mul(b)))));
+    p("U.MAX checked_ilog b", o(|| umax.checked_ilog(b)));
+    p("I.MAX checked_ilog b", o(|| imax.checked_ilog(ib)));
     v
 }
 
 fn tuples(shapes: Vec<Shape>) -> BoxedStrategy<Tuple> {
     let sh0 = shapes[0];
-    let pats = prop::strategy::Union::new(shapes.iter().map(|&s| gen::pattern_pair(s)));
+    let plain = prop::strategy::Union::new(shapes.iter().map(|&s| gen::pattern_pair(s)));
+    // special x structured: one operand a boundary value (MIN, MAX, -1, 0, 1, 2^k ...), the other drawn digit by
+    // digit from the extreme-value table of one member's digit size (equal / zero / all-ones digits are common), so
+    // that a shortcut keyed on a special operand meets a structured partner
+    let special = prop::strategy::Union::new(shapes.iter().map(|&s| {
+        (gen::boundary(sh0), prop_oneof![gen::digitwise(s), gen::runs(s), gen::short(s)], any::<bool>()).prop_map(|(a, b, swap)| if swap { (b, a) } else { (a, b) }).boxed()
+    }));
+    let pats = prop_oneof![5 => plain, 1 => special];
     let third = prop_oneof![3 => gen::pattern(sh0), 2 => (2u64..40).prop_map(move |x| Pat(Z::from_u64(x).to_le_wrapped(sh0.bytes)))];
     let text = prop_oneof![
         4 => (gen::pattern(sh0), 0u8..3, any::<bool>(), prop_oneof![5 => Just(0usize), 2 => 1usize..4, 3 => 0usize..(sh0.bits() as usize + 8)], 0u32..40).prop_map(|(p, sign, upper, zeros, short)| {
@@ -374,7 +397,8 @@ fn main() {
                 let shapes = vec![<$U0 as Int>::shape() $(, <$U as Int>::shape())+];
                 let w = <$U0 as Int>::W;
                 // more than 256 digits of the narrowest digit type: few, expensive cases
-                let q = if w >= 2000 { QUICK / 12 } else if w >= 192 { QUICK / 2 } else { QUICK };
+                let odd = matches!(w, 80 | 112 | 160 | 224 | 384 | 448 | 576);
+                let q = if w >= 2000 { QUICK / 12 } else if odd { QUICK / 4 } else if w >= 192 { QUICK / 2 } else { QUICK };
                 ctx.run("ops", ctx.budget(q, FACTOR), tuples(shapes), |c: &Tuple, obs: &mut Obs| {
                     let base = ops_vector::<$U0, $I0>(c);
                     obs.nt_if(c.0 .0.iter().any(|&b| b != 0) && c.1 .0.iter().any(|&b| b != 0));
@@ -413,6 +437,14 @@ fn main() {
     group!("128"; (BUintD8<16>, BIntD8<16>), (BUintD16<8>, BIntD16<8>), (BUintD32<4>, BIntD32<4>), (BUint<2>, BInt<2>));
     group!("192"; (BUintD8<24>, BIntD8<24>), (BUintD16<12>, BIntD16<12>), (BUintD32<6>, BIntD32<6>), (BUint<3>, BInt<3>));
     group!("320"; (BUintD8<40>, BIntD8<40>), (BUintD16<20>, BIntD16<20>), (BUintD32<10>, BIntD32<10>), (BUint<5>, BInt<5>));
+    // digit counts that leave a remainder after 2-, 4- or 8-digit chunks in one digit type but not in another
+    group!("80"; (BUintD8<10>, BIntD8<10>), (BUintD16<5>, BIntD16<5>));
+    group!("112"; (BUintD8<14>, BIntD8<14>), (BUintD16<7>, BIntD16<7>));
+    group!("160"; (BUintD8<20>, BIntD8<20>), (BUintD16<10>, BIntD16<10>), (BUintD32<5>, BIntD32<5>));
+    group!("224"; (BUintD8<28>, BIntD8<28>), (BUintD16<14>, BIntD16<14>), (BUintD32<7>, BIntD32<7>));
+    group!("384"; (BUintD8<48>, BIntD8<48>), (BUintD16<24>, BIntD16<24>), (BUintD32<12>, BIntD32<12>), (BUint<6>, BInt<6>));
+    group!("448"; (BUintD8<56>, BIntD8<56>), (BUintD16<28>, BIntD16<28>), (BUintD32<14>, BIntD32<14>), (BUint<7>, BInt<7>));
+    group!("576"; (BUintD8<72>, BIntD8<72>), (BUintD16<36>, BIntD16<36>), (BUintD32<18>, BIntD32<18>), (BUint<9>, BInt<9>));
     // digit counts above 256 (an index or digit offset narrowed to u8 shows only here)
     group!("2080"; (BUintD8<260>, BIntD8<260>), (BUintD16<130>, BIntD16<130>), (BUintD32<65>, BIntD32<65>));
     group!("4160"; (BUintD16<260>, BIntD16<260>), (BUintD32<130>, BIntD32<130>), (BUint<65>, BInt<65>));
@@ -448,7 +480,7 @@ fn main() {
     runner::main(
         Property {
             id: "C16",
-            rule: "(a) For each of the width groups {16, 32, 48, 64, 96, 128, 192, 320, 2080, 4160} (2-4 digit types each; the last two have more than 256 digits of the narrowest digit type and a twelfth of the budget) one operand tuple (three W-bit patterns structured for the 8-bit and for the widest digit size, a shift/rotate amount, an exponent, a radix, a text / byte string - decimal numerals with up to BITS + 8 redundant leading zeros and numerals around 2^W, 2^(W-1) and 1.5 * 2^W among them -, float bits) is loaded into every member and a table of ~280 operations (every overflow mode of add/sub/mul/div/rem, shifts, rotations, bit operations, comparison, pow, ilog, radix output, parsing of strings and digit slices, byte slices, all eight formatting traits with three flag specifications, casts to f32/f64/every primitive and from floats, operators with their profile-dependent panic outcome) is evaluated in each; results are normalised to strings ('Panicked' for a panic; the error kind of long invalid strings, which the property leaves open, to 'Err(any)') and must be identical across the group, and As casts between the members must preserve the pattern. Differential oracle, no reference model. (b) 18 (narrow, wide) pairs (same and different digit types, zero- and sign-extension): whenever the exact result is representable in the narrow type (decided by the reference integer), add/sub/mul/div/rem/pow/shl/cmp/decimal print/decimal parse on the extended operands equals the extension of the narrow result. (c) BITS, BYTES, MIN, MAX, ZERO, ONE..TEN, NEG_ONE..NEG_TEN for all 86 types and the aliases U128..I8192: enumerated completely. NON-TRIVIAL: (a) both main operands non-zero; (b) at least three operations had a representable exact result with non-zero operands; (c) every constant. distinct = distinct (profile, job, inputs) by 64-bit hash.",
+            rule: "(a) For each of the width groups {16, 32, 48, 64, 96, 128, 192, 320, 2080, 4160} (2-4 digit types each; the last two have more than 256 digits of the narrowest digit type and a twelfth of the budget) and, at a quarter of the budget, {80, 112, 160, 224, 384, 448, 576} (digit counts 5, 7, 9, 10, 14, 18, 20, 28, ... that leave a remainder after 2-, 4- or 8-digit chunks in one digit type but not in another) one operand tuple (three W-bit patterns structured for the 8-bit and for the widest digit size - a sixth of the pairs put a boundary value (MIN, MAX, -1, 0, 1, 2^k ...) against a digit-wise structured partner -, a shift/rotate amount, an exponent, a radix, a text / byte string - decimal numerals with up to BITS + 8 redundant leading zeros and numerals around 2^W, 2^(W-1) and 1.5 * 2^W among them -, float bits) is loaded into every member and a table of ~300 operations (among them the extreme values MIN, MAX, -1 of the type divided / multiplied by the structured operands and vice versa) (every overflow mode of add/sub/mul/div/rem, shifts, rotations, bit operations, comparison, pow, ilog, radix output, parsing of strings and digit slices, byte slices, all eight formatting traits with three flag specifications, casts to f32/f64/every primitive and from floats, operators with their profile-dependent panic outcome) is evaluated in each; results are normalised to strings ('Panicked' for a panic; the error kind of long invalid strings, which the property leaves open, to 'Err(any)') and must be identical across the group, and As casts between the members must preserve the pattern. Differential oracle, no reference model. (b) 18 (narrow, wide) pairs (same and different digit types, zero- and sign-extension): whenever the exact result is representable in the narrow type (decided by the reference integer), add/sub/mul/div/rem/pow/shl/cmp/decimal print/decimal parse on the extended operands equals the extension of the narrow result. (c) BITS, BYTES, MIN, MAX, ZERO, ONE..TEN, NEG_ONE..NEG_TEN for all 86 types and the aliases U128..I8192: enumerated completely. NON-TRIVIAL: (a) both main operands non-zero; (b) at least three operations had a representable exact result with non-zero operands; (c) every constant. distinct = distinct (profile, job, inputs) by 64-bit hash.",
             assumptions: &[
                 "digits()/from_digits()/to_bits()/from_bits() are the trusted observation channel",
                 "(a) is purely differential: a defect common to all digit types is invisible here and is the business of C01-C15",
